@@ -1,4 +1,5 @@
 import N0Verif.Proofs.FindAll
+import N0Verif.Proofs.XPathSpellings
 /-!
   The descendant search `//*/name` (completeness, both inclusions, document order) and the
   invariant "the found-path list renders the position of the current node" through every branch of
@@ -472,5 +473,495 @@ theorem fad_desc_all (hn : PlainKey name) :
     exact ⟨0, fun fuel _ q ps node i cur acc _ _ _ _ _ => by simp [starLoop, descL, fadMapR]⟩
 
 end desc
+
+/-! ## the positions listed by `descV` are distinct -/
+
+/-- distinct first components -/
+abbrev FadDistinct (l : List (Pos × Val)) : Prop := l.Pairwise (fun a b => a.1 ≠ b.1)
+
+theorem fad_lookup_some_of_mem {k : Str} {c : Val} : ∀ {kvs : List (Str × Val)}, (k, c) ∈ kvs → (lookup k kvs).isSome = true
+  | [], h => by cases h
+  | (k', x) :: r, h => by
+    simp only [lookup]
+    split
+    · rfl
+    · simp only [List.mem_cons, Prod.mk.injEq] at h
+      rcases h with ⟨rfl, _⟩ | h
+      · contradiction
+      · exact fad_lookup_some_of_mem h
+
+theorem fad_desc_distinct (name : Str) :
+    (∀ v, KeysOkV v → FadDistinct (descV name v) ∧ ∀ pv ∈ descV name v, pv.1 ≠ []) ∧
+    (∀ kvs, KeysOkK kvs → FadDistinct (descK name kvs) ∧
+      ∀ pv ∈ descK name kvs, ∃ k r, pv.1 = Seg.key k :: r ∧ r ≠ [] ∧ (lookup k kvs).isSome = true) ∧
+    (∀ xs, KeysOkL xs → ∀ i, FadDistinct (descL name i xs) ∧
+      ∀ pv ∈ descL name i xs, ∃ j r, pv.1 = Seg.idx j :: r ∧ i ≤ j) := by
+  refine fad_val_ind ?_ ?_ ?_ ?_ ?_ ?_ ?_
+  · intro c kvs ih hk
+    simp only [KeysOkV] at hk
+    obtain ⟨hd, hm⟩ := ih hk
+    simp only [descV]
+    constructor
+    · refine List.pairwise_append.2 ⟨?_, hd, ?_⟩
+      · cases lookup name kvs <;> simp
+      · intro a ha b hb
+        obtain ⟨k, r, hb1, hr, _⟩ := hm b hb
+        cases hl : lookup name kvs with
+        | none => rw [hl] at ha; cases ha
+        | some x =>
+          rw [hl] at ha
+          simp only [List.mem_singleton] at ha
+          subst ha
+          rw [hb1]
+          intro h
+          simp only [List.cons.injEq] at h
+          exact hr h.2.symm
+    · intro pv hpv
+      simp only [List.mem_append] at hpv
+      rcases hpv with h | h
+      · cases hl : lookup name kvs with
+        | none => rw [hl] at h; cases h
+        | some x => rw [hl] at h; simp only [List.mem_singleton] at h; subst h; simp
+      · obtain ⟨k, r, h1, _, _⟩ := hm pv h
+        rw [h1]; simp
+  · intro c xs ih hk
+    simp only [KeysOkV] at hk
+    obtain ⟨hd, hm⟩ := ih hk 0
+    simp only [descV]
+    refine ⟨hd, fun pv hpv => ?_⟩
+    obtain ⟨j, r, h1, _⟩ := hm pv hpv
+    rw [h1]; simp
+  · intro v hv _
+    rw [fad_descV_scalar name v hv]
+    exact ⟨List.Pairwise.nil, fun _ h => by cases h⟩
+  · intro _
+    simp [descK]
+  · intro k c kvs ihv ihk hk
+    simp only [KeysOkK] at hk
+    obtain ⟨_, hnone, hkc, hkk⟩ := hk
+    obtain ⟨hd1, hm1⟩ := ihv hkc
+    obtain ⟨hd2, hm2⟩ := ihk hkk
+    simp only [descK]
+    constructor
+    · refine List.pairwise_append.2 ⟨?_, hd2, ?_⟩
+      · refine List.pairwise_map.2 ?_
+        exact hd1.imp (fun h h' => h (by simpa using h'))
+      · intro a ha b hb
+        simp only [List.mem_map] at ha
+        obtain ⟨a', _, rfl⟩ := ha
+        obtain ⟨k', r, hb1, _, hsome⟩ := hm2 b hb
+        rw [hb1]
+        intro h
+        simp only [List.cons.injEq, Seg.key.injEq] at h
+        rw [← h.1, hnone] at hsome
+        cases hsome
+    · intro pv hpv
+      simp only [List.mem_append, List.mem_map] at hpv
+      rcases hpv with ⟨a, ha, rfl⟩ | h
+      · exact ⟨k, a.1, rfl, hm1 a ha, by simp [lookup]⟩
+      · obtain ⟨k', r, h1, hr, hsome⟩ := hm2 pv h
+        refine ⟨k', r, h1, hr, ?_⟩
+        simp only [lookup]
+        split
+        · rfl
+        · exact hsome
+  · intro _ i
+    simp [descL]
+  · intro x xs ihv ihl hk i
+    simp only [KeysOkL] at hk
+    obtain ⟨hd1, _⟩ := ihv hk.1
+    obtain ⟨hd2, hm2⟩ := ihl hk.2 (i + 1)
+    simp only [descL]
+    constructor
+    · refine List.pairwise_append.2 ⟨?_, hd2, ?_⟩
+      · refine List.pairwise_map.2 ?_
+        exact hd1.imp (fun h h' => h (by simpa using h'))
+      · intro a ha b hb
+        simp only [List.mem_map] at ha
+        obtain ⟨a', _, rfl⟩ := ha
+        obtain ⟨j, r, hb1, hj⟩ := hm2 b hb
+        rw [hb1]
+        intro h
+        simp only [List.cons.injEq, Seg.idx.injEq] at h
+        omega
+    · intro pv hpv
+      simp only [List.mem_append, List.mem_map] at hpv
+      rcases hpv with ⟨a, _, rfl⟩ | h
+      · exact ⟨i, a.1, rfl, Nat.le_refl _⟩
+      · obtain ⟨j, r, h1, hj⟩ := hm2 pv h
+        exact ⟨j, r, h1, by omega⟩
+
+/-! ## `descV` lists exactly the positions whose last segment is the key `name` -/
+
+theorem fad_keysOk_lookup : ∀ {kvs : List (Str × Val)} {k : Str} {c : Val}, KeysOkK kvs → lookup k kvs = some c →
+    PlainKey k ∧ KeysOkV c ∧ (k, c) ∈ kvs
+  | [], _, _, _, h => by cases h
+  | (k', x) :: r, k, c, hk, h => by
+    simp only [KeysOkK] at hk
+    simp only [lookup] at h
+    split at h
+    · cases h
+      rename_i heq
+      subst heq
+      exact ⟨hk.1, hk.2.2.1, by simp⟩
+    · obtain ⟨h1, h2, h3⟩ := fad_keysOk_lookup hk.2.2.2 h
+      exact ⟨h1, h2, by simp [h3]⟩
+
+theorem fad_keysOk_mem_lookup : ∀ {kvs : List (Str × Val)} {k : Str} {c : Val}, KeysOkK kvs → (k, c) ∈ kvs →
+    lookup k kvs = some c
+  | [], _, _, _, h => by cases h
+  | (k', x) :: r, k, c, hk, h => by
+    simp only [KeysOkK] at hk
+    simp only [List.mem_cons, Prod.mk.injEq] at h
+    simp only [lookup]
+    rcases h with ⟨rfl, rfl⟩ | h
+    · simp
+    · split
+      · rename_i heq
+        subst heq
+        have := fad_lookup_some_of_mem h
+        rw [hk.2.1] at this
+        cases this
+      · exact fad_keysOk_mem_lookup hk.2.2.2 h
+
+theorem fad_keysOk_elem : ∀ {xs : List Val} {i : Nat} {x : Val}, KeysOkL xs → xs[i]? = some x → KeysOkV x
+  | [], _, _, _, h => by simp at h
+  | y :: r, 0, x, hk, h => by
+    simp only [KeysOkL] at hk
+    simp only [List.getElem?_cons_zero, Option.some.injEq] at h
+    subst h; exact hk.1
+  | y :: r, i + 1, x, hk, h => by
+    simp only [KeysOkL] at hk
+    simp only [List.getElem?_cons_succ] at h
+    exact fad_keysOk_elem hk.2 h
+
+/-- along an existing position the keys are plain and the node reached is well-formed again -/
+theorem fad_keysOk_getAt : ∀ (p : Pos) {t v : Val}, KeysOkV t → getAt t p = some v → PlainPos p ∧ KeysOkV v
+  | [], t, v, hk, h => by
+    simp only [Val.getAt, Option.some.injEq] at h
+    subst h; exact ⟨trivial, hk⟩
+  | .key k :: r, t, v, hk, h => by
+    cases t with
+    | dict c kvs =>
+      simp only [Val.getAt, child] at h
+      cases hl : lookup k kvs with
+      | none => rw [hl] at h; cases h
+      | some x =>
+        rw [hl] at h
+        simp only [KeysOkV] at hk
+        obtain ⟨h1, h2, _⟩ := fad_keysOk_lookup hk hl
+        obtain ⟨h3, h4⟩ := fad_keysOk_getAt r h2 h
+        exact ⟨⟨h1, h3⟩, h4⟩
+    | _ => simp [Val.getAt, child] at h
+  | .idx n :: r, t, v, hk, h => by
+    cases t with
+    | list c xs =>
+      simp only [Val.getAt, child] at h
+      cases hl : xs[n]? with
+      | none => rw [hl] at h; cases h
+      | some x =>
+        rw [hl] at h
+        simp only [KeysOkV] at hk
+        obtain ⟨h3, h4⟩ := fad_keysOk_getAt r (fad_keysOk_elem hk hl) h
+        exact ⟨h3, h4⟩
+    | _ => simp [Val.getAt, child] at h
+
+theorem fad_desc_mem (name : Str) :
+    (∀ v, KeysOkV v → ∀ p w, (p, w) ∈ descV name v ↔ (∃ q, p = q ++ [Seg.key name]) ∧ getAt v p = some w) ∧
+    (∀ kvs, KeysOkK kvs → ∀ p w, (p, w) ∈ descK name kvs ↔
+      ∃ k c r, (k, c) ∈ kvs ∧ p = Seg.key k :: r ∧ (∃ q, r = q ++ [Seg.key name]) ∧ getAt c r = some w) ∧
+    (∀ xs, KeysOkL xs → ∀ i p w, (p, w) ∈ descL name i xs ↔
+      ∃ j x r, xs[j]? = some x ∧ p = Seg.idx (i + j) :: r ∧ (∃ q, r = q ++ [Seg.key name]) ∧ getAt x r = some w) := by
+  refine fad_val_ind ?_ ?_ ?_ ?_ ?_ ?_ ?_
+  · intro c kvs ih hk p w
+    simp only [KeysOkV] at hk
+    simp only [descV, List.mem_append, ih hk]
+    constructor
+    · rintro (h | ⟨k, x, r, hm, rfl, ⟨q, rfl⟩, hg⟩)
+      · cases hl : lookup name kvs with
+        | none => rw [hl] at h; cases h
+        | some x =>
+          rw [hl] at h
+          simp only [List.mem_singleton, Prod.mk.injEq] at h
+          obtain ⟨rfl, rfl⟩ := h
+          exact ⟨⟨[], rfl⟩, by simp [Val.getAt, child, hl]⟩
+      · refine ⟨⟨Seg.key k :: q, rfl⟩, ?_⟩
+        simp only [Val.getAt, child, fad_keysOk_mem_lookup hk hm, Option.bind_some]
+        exact hg
+    · rintro ⟨⟨q, rfl⟩, hg⟩
+      cases q with
+      | nil =>
+        left
+        simp only [List.nil_append, Val.getAt, child] at hg
+        cases hl : lookup name kvs with
+        | none => rw [hl] at hg; cases hg
+        | some x =>
+          rw [hl] at hg
+          simp only [Option.bind_some, Option.some.injEq] at hg
+          subst hg
+          simp
+      | cons s q =>
+        right
+        cases s with
+        | key k =>
+          simp only [List.cons_append, Val.getAt, child] at hg
+          cases hl : lookup k kvs with
+          | none => rw [hl] at hg; cases hg
+          | some x =>
+            rw [hl] at hg
+            exact ⟨k, x, q ++ [Seg.key name], (fad_keysOk_lookup hk hl).2.2, rfl, ⟨q, rfl⟩, hg⟩
+        | idx n => simp [Val.getAt, child] at hg
+  · intro c xs ih hk p w
+    simp only [KeysOkV] at hk
+    simp only [descV, ih hk 0]
+    constructor
+    · rintro ⟨j, x, r, hx, rfl, ⟨q, rfl⟩, hg⟩
+      refine ⟨⟨Seg.idx (0 + j) :: q, rfl⟩, ?_⟩
+      simp only [Val.getAt, child, Nat.zero_add, hx, Option.bind_some]
+      exact hg
+    · rintro ⟨⟨q, rfl⟩, hg⟩
+      cases q with
+      | nil => simp [Val.getAt, child] at hg
+      | cons s q =>
+        cases s with
+        | key k => simp [Val.getAt, child] at hg
+        | idx n =>
+          simp only [List.cons_append, Val.getAt, child] at hg
+          cases hl : xs[n]? with
+          | none => rw [hl] at hg; cases hg
+          | some x =>
+            rw [hl] at hg
+            exact ⟨n, x, q ++ [Seg.key name], hl, by simp, ⟨q, rfl⟩, hg⟩
+  · intro v hv _ p w
+    rw [fad_descV_scalar name v hv]
+    constructor
+    · intro h; cases h
+    · rintro ⟨⟨q, rfl⟩, hg⟩
+      cases q with
+      | nil => cases v <;> simp [isContainer] at hv <;> simp [Val.getAt, child] at hg
+      | cons s q => cases v <;> simp [isContainer] at hv <;> simp [Val.getAt, child] at hg
+  · intro _ p w
+    simp [descK]
+  · intro k c kvs ihv ihk hk p w
+    simp only [KeysOkK] at hk
+    simp only [descK, List.mem_append, List.mem_map, ihk hk.2.2.2]
+    constructor
+    · rintro (⟨⟨r, w'⟩, hm, heq⟩ | ⟨k', c', r, hm, rfl, hq, hg⟩)
+      · simp only [Prod.mk.injEq] at heq
+        obtain ⟨rfl, rfl⟩ := heq
+        obtain ⟨hq, hg⟩ := (ihv hk.2.2.1 r w').1 hm
+        exact ⟨k, c, r, by simp, rfl, hq, hg⟩
+      · exact ⟨k', c', r, by simp [hm], rfl, hq, hg⟩
+    · rintro ⟨k', c', r, hm, rfl, hq, hg⟩
+      simp only [List.mem_cons, Prod.mk.injEq] at hm
+      rcases hm with ⟨rfl, rfl⟩ | hm
+      · left
+        exact ⟨(r, w), (ihv hk.2.2.1 r w).2 ⟨hq, hg⟩, rfl⟩
+      · right
+        exact ⟨k', c', r, hm, rfl, hq, hg⟩
+  · intro _ i p w
+    simp [descL]
+  · intro x xs ihv ihl hk i p w
+    simp only [KeysOkL] at hk
+    simp only [descL, List.mem_append, List.mem_map, ihl hk.2]
+    constructor
+    · rintro (⟨⟨r, w'⟩, hm, heq⟩ | ⟨j, x', r, hx, rfl, hq, hg⟩)
+      · simp only [Prod.mk.injEq] at heq
+        obtain ⟨rfl, rfl⟩ := heq
+        obtain ⟨hq, hg⟩ := (ihv hk.1 r w').1 hm
+        exact ⟨0, x, r, by simp, rfl, hq, hg⟩
+      · exact ⟨j + 1, x', r, by simpa using hx, by simp; omega, hq, hg⟩
+    · rintro ⟨j, x', r, hx, rfl, hq, hg⟩
+      cases j with
+      | zero =>
+        left
+        simp only [List.getElem?_cons_zero, Option.some.injEq] at hx
+        subst hx
+        exact ⟨(r, w), (ihv hk.1 r w).2 ⟨hq, hg⟩, rfl⟩
+      | succ j =>
+        right
+        simp only [List.getElem?_cons_succ] at hx
+        exact ⟨j, x', r, hx, by simp; omega, hq, hg⟩
+
+/-! ## the found-path list as a list of groups (a key and the indexes attached to it) -/
+
+/-- one element of `found_xpath_list`: a key and the integer indexes appended to it -/
+abbrev Grp := Str × List Int
+
+def grpText (g : Grp) : Str := g.1 ++ g.2.flatMap (fun i => bracket (intRepr i))
+
+def flOfG (gs : List Grp) : FL := gs.map grpText
+
+/-- the index spelling `findall` writes: the integer as `str()` prints it -/
+def spOfInt : Int → IdxSp
+  | .ofNat n => .lit n
+  | .negSucc n => .neg (n + 1)
+
+theorem spOfInt_text (i : Int) : (spOfInt i).text = intRepr i := by cases i <;> rfl
+
+theorem spOfInt_val (i : Int) : (spOfInt i).val = i := by
+  cases i with
+  | ofNat n => rfl
+  | negSucc n => simp only [spOfInt, IdxSp.val]; omega
+
+/-- the steps a list of groups spells (every index attached) -/
+def stepsOfG (gs : List Grp) : List StepSp :=
+  gs.flatMap (fun g => StepSp.key g.1 :: g.2.map (fun i => StepSp.idx (spOfInt i) false))
+
+/-- `found_xpath_list[-1] += "[i]"` -/
+def addIdx (gs : List Grp) (i : Int) : List Grp :=
+  match gs.getLast? with
+  | some g => gs.dropLast ++ [(g.1, g.2 ++ [i])]
+  | Option.none => []
+
+def GrpsPlain (gs : List Grp) : Prop := ∀ g ∈ gs, PlainKey g.1
+
+theorem fad_plainSteps : ∀ (gs : List Grp), GrpsPlain gs → PlainSteps (stepsOfG gs) := by
+  intro gs
+  induction gs with
+  | nil => intro _; trivial
+  | cons g r ih =>
+    intro h
+    have h1 : PlainKey g.1 := h g (by simp)
+    have h2 := ih (fun g' hg' => h g' (by simp [hg']))
+    have aux : ∀ (is : List Int) (t : List StepSp), PlainSteps t →
+        PlainSteps (is.map (fun i => StepSp.idx (spOfInt i) false) ++ t) := by
+      intro is t ht
+      induction is with
+      | nil => exact ht
+      | cons i r ih' => exact ih'
+    simp only [stepsOfG, List.flatMap_cons, List.cons_append]
+    exact ⟨h1, aux _ _ h2⟩
+
+theorem grpText_noSlash {g : Grp} (hk : PlainKey g.1) : ∀ c ∈ grpText g, c ≠ '/' := by
+  intro c hc
+  simp only [grpText, List.mem_append, List.mem_flatMap] at hc
+  rcases hc with hc | ⟨i, _, hc⟩
+  · exact hk.noSlash c hc
+  · have := bracketSp_noSlash (spOfInt i) c
+    rw [spOfInt_text] at this
+    exact this hc
+
+theorem grpText_head {g : Grp} (hk : PlainKey g.1) : ∃ c r, grpText g = c :: r ∧ c ≠ '[' := by
+  obtain ⟨c, r, hcr, _, h2⟩ := PlainKey.head_ne hk
+  exact ⟨c, r ++ g.2.flatMap (fun i => bracket (intRepr i)), by simp [grpText, hcr], h2⟩
+
+theorem fad_join_head (g : Grp) (r : List Grp) (hk : PlainKey g.1) :
+    ∃ c t, join ['/'] (flOfG (g :: r)) = c :: t ∧ c ≠ '[' := by
+  obtain ⟨c, t, hct, hc⟩ := grpText_head hk
+  cases r with
+  | nil => exact ⟨c, t, by simp [flOfG, join, hct], hc⟩
+  | cons g' r' =>
+    refine ⟨c, t ++ ['/'] ++ join ['/'] (flOfG (g' :: r')), ?_, hc⟩
+    simp [flOfG, join, hct]
+
+/-- `replace('/[', '[')` does nothing to the joined groups: a '/' is always followed by a key -/
+theorem fad_delSB_join : ∀ (gs : List Grp), GrpsPlain gs → delSB (join ['/'] (flOfG gs)) = join ['/'] (flOfG gs) := by
+  intro gs
+  induction gs with
+  | nil => intro _; rfl
+  | cons g r ih =>
+    intro h
+    have hk : PlainKey g.1 := h g (by simp)
+    have hr : GrpsPlain r := fun g' hg' => h g' (by simp [hg'])
+    cases r with
+    | nil =>
+      have := delSB_append_noSlash (grpText g) [] (grpText_noSlash hk)
+      simpa [flOfG, join, delSB] using this
+    | cons g' r' =>
+      have e : join ['/'] (flOfG (g :: g' :: r')) = grpText g ++ '/' :: join ['/'] (flOfG (g' :: r')) := by
+        simp [flOfG, join]
+      obtain ⟨c, t, hct, hc⟩ := fad_join_head g' r' (hr g' (by simp))
+      rw [e, delSB_append_noSlash _ _ (grpText_noSlash hk)]
+      have : delSB ('/' :: join ['/'] (flOfG (g' :: r'))) = '/' :: delSB (join ['/'] (flOfG (g' :: r'))) := by
+        rw [delSB, hct]
+        simp [hc]
+      rw [this, ih hr]
+
+theorem fad_keyOf_groups (gs : List Grp) (h : GrpsPlain gs) : keyOf (flOfG gs) = '/' :: '/' :: join ['/'] (flOfG gs) := by
+  simp only [keyOf, fad_delSB_join gs h]
+
+/-- text of the groups with a '/' before each -/
+def grpsR (gs : List Grp) : Str := gs.flatMap (fun g => '/' :: grpText g)
+
+theorem fad_slash_join : ∀ (gs : List Grp), gs ≠ [] → '/' :: join ['/'] (flOfG gs) = grpsR gs := by
+  intro gs
+  induction gs with
+  | nil => intro h; exact absurd rfl h
+  | cons g r ih =>
+    intro _
+    cases r with
+    | nil => simp [flOfG, join, grpsR]
+    | cons g' r' =>
+      have e : join ['/'] (flOfG (g :: g' :: r')) = grpText g ++ '/' :: join ['/'] (flOfG (g' :: r')) := by
+        simp [flOfG, join]
+      rw [e, ih (by simp)]
+      simp [grpsR]
+
+theorem fad_renderSteps_groups (gs : List Grp) : renderSteps (stepsOfG gs) = grpsR gs := by
+  induction gs with
+  | nil => rfl
+  | cons g r ih =>
+    have aux : ∀ (is : List Int), renderSteps (is.map (fun i => StepSp.idx (spOfInt i) false)) =
+        is.flatMap (fun i => bracket (intRepr i)) := by
+      intro is
+      induction is with
+      | nil => rfl
+      | cons i r ih' =>
+        simp only [List.map_cons, renderSteps_cons, renderStep, spOfInt_text, ih', List.flatMap_cons]
+    have e : stepsOfG (g :: r) = (StepSp.key g.1 :: g.2.map (fun i => StepSp.idx (spOfInt i) false)) ++ stepsOfG r := by
+      simp [stepsOfG]
+    have happ : ∀ a b : List StepSp, renderSteps (a ++ b) = renderSteps a ++ renderSteps b := by
+      intro a b; simp [renderSteps]
+    rw [e, happ, renderSteps_cons, aux, ih]
+    simp [grpsR, grpText, renderStep]
+
+/-- **the key `findall` reports is the `//` spelling of the steps** the path list stands for -/
+theorem fad_keyOf_renderSp (gs : List Grp) (h : GrpsPlain gs) : keyOf (flOfG gs) = renderSp .two (stepsOfG gs) := by
+  rw [fad_keyOf_groups gs h, renderSp, fad_renderSteps_groups]
+  cases gs with
+  | nil => rfl
+  | cons g r =>
+    rw [← fad_slash_join (g :: r) (by simp)]
+    simp [leadStr, dropSlash]
+
+theorem fad_grpsR_append (a b : List Grp) : grpsR (a ++ b) = grpsR a ++ grpsR b := by simp [grpsR]
+
+theorem fad_grpsR_len {gs : List Grp} (h : GrpsPlain gs) (hne : gs ≠ []) : (grpsR gs).length ≥ 2 := by
+  cases gs with
+  | nil => exact absurd rfl hne
+  | cons g r =>
+    obtain ⟨c, t, hct, _⟩ := grpText_head (h g (by simp))
+    simp [grpsR, hct]
+
+theorem fad_join_len (gs : List Grp) : (join ['/'] (flOfG gs)).length + 1 = (grpsR gs).length ∨ gs = [] := by
+  by_cases h : gs = []
+  · exact Or.inr h
+  · left
+    rw [← fad_slash_join gs h]
+    simp
+
+/-- the key of a proper prefix of the path list differs from the key of the whole list -/
+theorem fad_keyOf_prefix_ne (gs1 gs2 : List Grp) (h : GrpsPlain (gs1 ++ gs2)) (hne : gs2 ≠ []) :
+    keyOf (flOfG gs1) ≠ keyOf (flOfG (gs1 ++ gs2)) := by
+  have h1 : GrpsPlain gs1 := fun g hg => h g (by simp [hg])
+  have h2 : GrpsPlain gs2 := fun g hg => h g (by simp [hg])
+  rw [fad_keyOf_groups _ h1, fad_keyOf_groups _ h]
+  intro heq
+  simp only [List.cons.injEq, true_and] at heq
+  have hl := congrArg List.length heq
+  have l2 := fad_grpsR_len h2 hne
+  have la := fad_grpsR_append gs1 gs2
+  have lb := congrArg List.length la
+  simp only [List.length_append] at lb
+  rcases fad_join_len (gs1 ++ gs2) with e | e
+  · rcases fad_join_len gs1 with e1 | e1
+    · omega
+    · subst e1
+      simp only [List.nil_append] at hl e
+      have : (join ['/'] (flOfG [])).length = 0 := rfl
+      omega
+  · simp at e
+    exact hne e.2
 
 end N0.FindAll
